@@ -17,7 +17,12 @@ import streams_common as sc
 GEN = []
 RULE = ("the source reaches the query in 11 ways (one-shot iterator or RE-ITERABLE lazy object; as $ / inside the data document / "
         "context variable / result of a registered host function; yaql.convertInputData on and off), a fixed set of pipelines "
-        "through all of them and every other case through one of them in rotation; corpus; per-function grid (each streaming function alone over the endless source, every integer argument in "
+        "through all of them and every other case through one of them in rotation; every pipeline also in SPLIT form (a prefix of "
+        "the chain - the source itself or the result of any streaming operator - bound by let (keyword, positional, several "
+        "bindings) / with / a def'd function / lambda(..)(..) / a lambda held in a variable, 1..3 bindings chained, and the chain "
+        "continued through the variable: values, pulls and lambda applications must be those of the unsplit chain); selectMany "
+        "with LAZY groups (sequence($), range($), $.repeat(), a second instrumented host iterator in a context variable bare or "
+        "under select / where - its pulls and lambda applications are counted too); corpus; per-function grid (each streaming function alone over the endless source, every integer argument in "
         "[-3, 6], k in 0..5); seeded random typed pipelines of 1..4 streaming functions, start value in [-3, 3], "
         "k in 0..8; pipelines ending in first/any/all/indexOf/indexWhere/contains; non-trivial = at least one result "
         "requested and at least one function; distinct = distinct (start, stages, k)")
@@ -27,6 +32,9 @@ TRUSTED = ["Model/Streams.v: hand transcription of the lazy objects of queries.p
 ASSUMPTIONS = ["the way a lazy source is handed to the query (data, document member, context variable, host function result, "
                "with or without input conversion, iterator or re-iterable) does not enter the model: the consumption must be the same",
                "lambda bodies come from the generated family and are applied to integers / pairs they are defined on",
+               "after an endless group that is not instrumented (sequence($), $.repeat()) only operators that hand every element "
+               "on are generated (a filter that never matches would spin without touching any instrumented source); such cases run "
+               "under an address-space ceiling so that a materialising implementation ends in MemoryError",
                "a pipeline needing more than CAP = 200 source elements for its first k results is recorded as such on both "
                "sides and not compared further"]
 EXPLANATION = ("Coq proofs of the demand of each streaming operator and of their composition along a pipeline (exact pull and "
